@@ -313,4 +313,35 @@ PROPS = {
             {"pkg": S, "test": "TestVerifC15", "quick": (16, 60), "thorough": (16, 6000), "timeout_q": 1500},
         ],
     },
+    "C19": {
+        "level": "exploration",
+        "claim": ("Per package (MRT, BMP, RTR, Zebra API, BFD) one generator of cases {recipe, raw bytes, mode}: round trip of every "
+                  "message the package can construct (all MRT subtypes incl. ADD-PATH and 24 RIB families cross-checked against "
+                  "hand-encoded RFC 6396/8050 records, all BMP message types x peer-header flag sets, all nine RTR PDUs, 13 ZAPI body "
+                  "kinds x 22 version/flavour pairs, BFD control packets): serialise, parse, equal value, identical bytes on "
+                  "re-serialising; and decode safety over arbitrary bytes, structure-aware mutants (truncation at every offset with "
+                  "and without fixed-up lengths, hostile 0/0xff/len+-1 length fields, retyping, splicing) and the stream splitters: no "
+                  "panic, caller's buffer unchanged, input in a poisoned cap==len buffer, identical result with spare capacity or "
+                  "other octets behind the framed message, splitter tokens are prefixes of the data and a bufio.Scanner over them "
+                  "terminates. Native fuzz targets share the decode oracle."),
+        "note": ("The records the running daemon emits (BMP route monitoring / peer up, MRT dumps) are not produced by this "
+                 "check; embedded BGP messages come from the C04 generators. Zebra bodies whose request and reply layouts differ by "
+                 "protocol design are compared at header level only."),
+        "technique": "property-based testing (rapid) with recipe generators: codec round trip + decode-safety oracles on guarded buffers; coverage-guided native fuzzing (thorough tier) with the same oracle",
+        "rule": ("non-trivial when a body decoder is reached (header parses, declared body present) or the constructed message embeds a "
+                 "BGP message / has at least two entries; distinct by case hash"),
+        "assumptions": [],
+        "units": [
+            {"pkg": "pkg/packet/mrt", "test": "TestVerifC19_mrt", "quick": (8, 4000), "thorough": (16, 400000)},
+            {"pkg": "pkg/packet/bmp", "test": "TestVerifC19_bmp", "quick": (8, 4000), "thorough": (16, 400000)},
+            {"pkg": "pkg/packet/rtr", "test": "TestVerifC19_rtr", "quick": (4, 10000), "thorough": (16, 1000000)},
+            {"pkg": "pkg/zebra", "test": "TestVerifC19_zebra", "quick": (8, 3000), "thorough": (16, 300000)},
+            {"pkg": "pkg/packet/bfd", "test": "TestVerifC19_bfd", "quick": (4, 10000), "thorough": (16, 1000000)},
+            {"pkg": "pkg/packet/mrt", "kind": "fuzz", "test": "FuzzVerifC19_mrt", "fuzz_seconds": 240},
+            {"pkg": "pkg/packet/bmp", "kind": "fuzz", "test": "FuzzVerifC19_bmp", "fuzz_seconds": 240},
+            {"pkg": "pkg/packet/rtr", "kind": "fuzz", "test": "FuzzVerifC19_rtr", "fuzz_seconds": 120},
+            {"pkg": "pkg/zebra", "kind": "fuzz", "test": "FuzzVerifC19_zebra", "fuzz_seconds": 240},
+            {"pkg": "pkg/packet/bfd", "kind": "fuzz", "test": "FuzzVerifC19_bfd", "fuzz_seconds": 60},
+        ],
+    },
 }
